@@ -925,3 +925,74 @@ package ircserver
 //@   loop range snapshot.Sessions
 //@     invariant forall k int :: 0 <= k && k <= rangeindex ==> snapId(snapshot.Sessions[k]) in i.sessions && i.sessions[snapId(snapshot.Sessions[k])] != nil && allocated(i.sessions[snapId(snapshot.Sessions[k])]) && sessRepr(snapshot.Sessions[k], i.sessions[snapId(snapshot.Sessions[k])])
 //@     invariant forall x robust.Id :: x in i.sessions ==> (exists k int :: 0 <= k && k <= rangeindex && snapId(snapshot.Sessions[k]) == x)
+
+//@ pred modesOK(p *pb.Snapshot_Session) = allocated(p.Modes) && forall j int :: 0 <= j && j < len(p.Modes) ==> len(p.Modes[j]) > 0 && p.Modes[j][0] < 122
+//@ pred sessEntryOK(p *pb.Snapshot_Session, i *IRCServer) = modesOK(p) && p != nil && allocated(p) && p.Id != nil && p.IrcPrefix != nil && allocated(p.Id) && allocated(p.IrcPrefix) && allocated(p.LastActivity) && allocated(p.LastNonPing) && allocated(p.LastSolvedCaptcha) && snapId(p) in i.sessions && sessRepr(p, i.sessions[snapId(p)])
+
+// Marshal: every session is written exactly once, field by field. The reader's
+// legacy fall-backs are the identity on what the writer produces, given that
+// creation time and last non-ping activity of a session are set (both are set
+// from the entry's timestamp when the session is created).
+//@ func IRCServer.Marshal
+//@   requires state: i != nil && wfLocks(i) && sessShape(i) && i.channels != nil && i.svsholds != nil
+//@   requires legacy-created: forall x robust.Id :: x in i.sessions ==> i.sessions[x].Created > 0 && !i.sessions[x].LastNonPing.IsZero()
+//@   assert@call append#3 : built: callarg1[0] != nil && callarg1[0].Id != nil && callarg1[0].IrcPrefix != nil && snapId(callarg1[0]) == id && session == i.sessions[id] && sessRepr(callarg1[0], session) && modesOK(callarg1[0])
+//@   assert@call append#3 : kept: forall k int :: 0 <= k && k < len(sessions) ==> sessEntryOK(sessions[k], i) && snapId(sessions[k]) != id
+//@   loop range i.sessions
+//@     invariant forall k int :: 0 <= k && k < len(sessions) ==> sessEntryOK(sessions[k], i) && seen(snapId(sessions[k]))
+//@     invariant forall x robust.Id :: seen(x) ==> (exists k int :: 0 <= k && k < len(sessions) && snapId(sessions[k]) == x)
+//@     invariant forall a int, b int {sessions[a], sessions[b]} :: 0 <= a && a < b && b < len(sessions) ==> snapId(sessions[a]) != snapId(sessions[b])
+//@   loop range session.Channels
+//@     invariant id in i.sessions && session == i.sessions[id] && session != nil
+//@     invariant forall k int :: 0 <= k && k < len(sessions) ==> sessEntryOK(sessions[k], i) && snapId(sessions[k]) != id && seen(snapId(sessions[k]), "range i.sessions")
+//@     invariant forall x robust.Id :: seen(x, "range i.sessions") && x != id ==> (exists k int :: 0 <= k && k < len(sessions) && snapId(sessions[k]) == x)
+//@     invariant forall a int, b int {sessions[a], sessions[b]} :: 0 <= a && a < b && b < len(sessions) ==> snapId(sessions[a]) != snapId(sessions[b])
+//@   loop range session.invitedTo
+//@     invariant id in i.sessions && session == i.sessions[id] && session != nil
+//@     invariant forall k int :: 0 <= k && k < len(sessions) ==> sessEntryOK(sessions[k], i) && snapId(sessions[k]) != id && seen(snapId(sessions[k]), "range i.sessions")
+//@     invariant forall x robust.Id :: seen(x, "range i.sessions") && x != id ==> (exists k int :: 0 <= k && k < len(sessions) && snapId(sessions[k]) == x)
+//@     invariant forall a int, b int {sessions[a], sessions[b]} :: 0 <= a && a < b && b < len(sessions) ==> snapId(sessions[a]) != snapId(sessions[b])
+//@   loop for mode < 'z'
+//@     invariant forall j int :: 0 <= j && j < len(modes) ==> len(modes[j]) > 0 && modes[j][0] < 122
+//@     invariant id in i.sessions && session == i.sessions[id] && session != nil
+//@     invariant forall k int :: 0 <= k && k < len(sessions) ==> sessEntryOK(sessions[k], i) && snapId(sessions[k]) != id && seen(snapId(sessions[k]), "range i.sessions")
+//@     invariant forall x robust.Id :: seen(x, "range i.sessions") && x != id ==> (exists k int :: 0 <= k && k < len(sessions) && snapId(sessions[k]) == x)
+//@     invariant forall a int, b int {sessions[a], sessions[b]} :: 0 <= a && a < b && b < len(sessions) ==> snapId(sessions[a]) != snapId(sessions[b])
+// the loops after the session loop leave the session list alone
+//@   loop range i.channels
+//@     invariant forall k int :: 0 <= k && k < len(sessions) ==> sessEntryOK(sessions[k], i)
+//@     invariant forall x robust.Id :: x in i.sessions ==> (exists k int :: 0 <= k && k < len(sessions) && snapId(sessions[k]) == x)
+//@     invariant forall a int, b int {sessions[a], sessions[b]} :: 0 <= a && a < b && b < len(sessions) ==> snapId(sessions[a]) != snapId(sessions[b])
+//@   loop range channel.nicks
+//@     invariant forall k int :: 0 <= k && k < len(sessions) ==> sessEntryOK(sessions[k], i)
+//@     invariant forall x robust.Id :: x in i.sessions ==> (exists k int :: 0 <= k && k < len(sessions) && snapId(sessions[k]) == x)
+//@     invariant forall a int, b int {sessions[a], sessions[b]} :: 0 <= a && a < b && b < len(sessions) ==> snapId(sessions[a]) != snapId(sessions[b])
+//@   loop range channelNickModes
+//@     invariant forall k int :: 0 <= k && k < len(sessions) ==> sessEntryOK(sessions[k], i)
+//@     invariant forall x robust.Id :: x in i.sessions ==> (exists k int :: 0 <= k && k < len(sessions) && snapId(sessions[k]) == x)
+//@     invariant forall a int, b int {sessions[a], sessions[b]} :: 0 <= a && a < b && b < len(sessions) ==> snapId(sessions[a]) != snapId(sessions[b])
+//@   loop for mode < 'z' #1
+//@     invariant forall k int :: 0 <= k && k < len(sessions) ==> sessEntryOK(sessions[k], i)
+//@     invariant forall x robust.Id :: x in i.sessions ==> (exists k int :: 0 <= k && k < len(sessions) && snapId(sessions[k]) == x)
+//@     invariant forall a int, b int {sessions[a], sessions[b]} :: 0 <= a && a < b && b < len(sessions) ==> snapId(sessions[a]) != snapId(sessions[b])
+//@   loop range channel.bans
+//@     invariant forall k int :: 0 <= k && k < len(sessions) ==> sessEntryOK(sessions[k], i)
+//@     invariant forall x robust.Id :: x in i.sessions ==> (exists k int :: 0 <= k && k < len(sessions) && snapId(sessions[k]) == x)
+//@     invariant forall a int, b int {sessions[a], sessions[b]} :: 0 <= a && a < b && b < len(sessions) ==> snapId(sessions[a]) != snapId(sessions[b])
+//@   loop range i.svsholds
+//@     invariant forall k int :: 0 <= k && k < len(sessions) ==> sessEntryOK(sessions[k], i)
+//@     invariant forall x robust.Id :: x in i.sessions ==> (exists k int :: 0 <= k && k < len(sessions) && snapId(sessions[k]) == x)
+//@     invariant forall a int, b int {sessions[a], sessions[b]} :: 0 <= a && a < b && b < len(sessions) ==> snapId(sessions[a]) != snapId(sessions[b])
+//@   loop range i.Config.IRC.Operators
+//@     invariant forall k int :: 0 <= k && k < len(sessions) ==> sessEntryOK(sessions[k], i)
+//@     invariant forall x robust.Id :: x in i.sessions ==> (exists k int :: 0 <= k && k < len(sessions) && snapId(sessions[k]) == x)
+//@     invariant forall a int, b int {sessions[a], sessions[b]} :: 0 <= a && a < b && b < len(sessions) ==> snapId(sessions[a]) != snapId(sessions[b])
+//@   loop range i.Config.IRC.Services
+//@     invariant forall k int :: 0 <= k && k < len(sessions) ==> sessEntryOK(sessions[k], i)
+//@     invariant forall x robust.Id :: x in i.sessions ==> (exists k int :: 0 <= k && k < len(sessions) && snapId(sessions[k]) == x)
+//@     invariant forall a int, b int {sessions[a], sessions[b]} :: 0 <= a && a < b && b < len(sessions) ==> snapId(sessions[a]) != snapId(sessions[b])
+//@   assert@call proto.Marshal#0 : same: sameslice(snapshot.Sessions, sessions)
+//@   assert@call proto.Marshal#0 : complete0: forall x robust.Id :: x in i.sessions ==> (exists k int :: 0 <= k && k < len(sessions) && snapId(sessions[k]) == x)
+//@   assert@call proto.Marshal#0 : sessions: wfSnapSessions(addrof(snapshot))
+//@   assert@call proto.Marshal#0 : sessions-repr: forall k int :: 0 <= k && k < len(snapshot.Sessions) ==> sessEntryOK(snapshot.Sessions[k], i)
+//@   assert@call proto.Marshal#0 : sessions-complete: forall x robust.Id :: x in i.sessions ==> (exists k int :: 0 <= k && k < len(snapshot.Sessions) && snapId(snapshot.Sessions[k]) == x)
